@@ -119,8 +119,51 @@ class Recorder:
         _RECORDERS.pop(self.key, None)
 
 
+def _make_node(m, g, rec, x, name, implicit, observed):
+    import elfi
+    k = g["kind"][x]
+    parents = [Sym(["c", p]) if p in implicit else m[p] for p in g["pos"][x]]
+    kw = dict(model=m, name=name)
+    if observed:
+        kw["observed"] = Sym(["obs", x])
+    cls = dict(op=elfi.Operation, prior=elfi.Prior, sim=elfi.Simulator, sum=elfi.Summary, disc=elfi.Discrepancy)[k]
+    cls(rec.make_dist(x) if k == "prior" else rec.make_op(x), *parents, **kw)
+    for (param, p) in g["named"].get(x, []):
+        m.add_edge(p, name, param_name=param)
+    if x in g.get("meta", []):
+        m[name].uses_meta = True
+    elif x in g.get("meta_false", []):
+        m[name].uses_meta = False
+
+
+def reinsert(m, g, rec, x):
+    """The same graph after an edit history: node x is replaced (public `become`) by a fresh node of the same class, operation,
+    parents and flags, and its observed data are attached again.  The meaning of the graph is unchanged; x now comes AFTER its
+    children in the node (insertion) order of the source net, as after any user's `become` / late `add_edge`."""
+    import elfi
+    implicit = set(g.get("implicit", []))
+    k = g["kind"][x]
+    tmp = x + "__re"
+    if k == "const":
+        elfi.Constant(Sym(["c", x]), model=m, name=tmp)
+    else:
+        _make_node(m, g, rec, x, tmp, implicit, observed=False)
+    m[x].become(m[tmp])
+    if x in set(g.get("obs", [])):
+        m.observed[x] = Sym(["obs", x])
+
+
 def build_model(g, rec, order=None, model_name="symg"):
     """Build the real ElfiModel of a scenario graph through the public constructors."""
+    import elfi
+    m = _build_model(g, rec, order, model_name)
+    for x in g.get("reinsert", []):
+        if x not in set(g.get("implicit", [])):
+            reinsert(m, g, rec, x)
+    return m
+
+
+def _build_model(g, rec, order=None, model_name="symg"):
     import elfi
     m = elfi.ElfiModel(name=model_name)
     implicit = set(g.get("implicit", []))
